@@ -100,7 +100,7 @@ func c09Damages(p *lib.Pair) []lib.Damage {
 func c09Cases(tier string, seed uint64, flavor string) []lib.Case {
 	npairs := 2
 	if tier == "thorough" {
-		npairs = 24
+		npairs = 80
 	}
 	var cases []lib.Case
 	for i := 0; i < npairs; i++ {
